@@ -195,6 +195,20 @@ def Ctx.evictMe (c : Ctx) (t : Topic) (u : Uid) (skip : Sid) : Ctx × Topic :=
     if sid ≠ skip then c.emit sid (ctrl 205 t.name " unsub=false") else c) c
   (c, t)
 
+/-- what the other parties learn when the user's own mode on `me` changes (thisUserSub + notifySubChange with t.cat = TopicCatMe):
+losing P makes the user invisible - the contacts are told "off+dis" before the new mode is applied -, getting it back announces the
+user again ("on+en"); the user's other sessions attached to `me` see the new mode -/
+def Ctx.meModeChanged (c : Ctx) (t : Topic) (a : Actor) (ud : PUD) (oldWant oldGiven : Mode) : Ctx × Topic :=
+  let (c, t) := if isPresencer (oldWant &&& oldGiven) ∧ !isPresencer (eff ud) then c.presUsersOfInterest t "off" "dis" else (c, t)
+  let t := t.setPud a.uid ud
+  if oldWant ≠ ud.want ∨ oldGiven ≠ ud.given then
+    let (c, t) := if hearsPres (eff ud) ∧ !hearsPres (oldWant &&& oldGiven) then c.presUsersOfInterest t "on" "en" else (c, t)
+    let dWant := String.ofList (notifyStr oldWant ud.want)
+    let dGiven := String.ofList (notifyStr oldGiven ud.given)
+    let acs := if dWant ≠ "" ∨ dGiven ≠ "" then s!" dacs={if dWant.isEmpty then "_" else dWant}/{if dGiven.isEmpty then "_" else dGiven}" else ""
+    (c.presDirect t { what := "acs", src := "", extra := acs, singleUser := a.uid, skipSid := a.sid }, t)
+  else (c, t)
+
 /-- thisUserSub on `me` for a user whose subscription is cached (topic.go:1651-1900 with t.cat = TopicCatMe): the checks and the
 default of an un-self-ban are those of every topic (`selfModeCheck`, `selfWant`; a `me` topic has no owner); losing P makes the
 user invisible - the contacts are told "off+dis" -, getting it back announces the user again ("on+en"); the user's other sessions
@@ -219,18 +233,8 @@ def Ctx.thisUserSubMe (c : Ctx) (t : Topic) (a : Actor) (modeWant0 : Mode) : Ctx
         if ud.given ≠ oldGiven then { s with given := ud.given } else s))
     else (c, true)
   if !ok then (c.emit a.sid (ctrl 500 tn), t, none) else
-  -- going invisible, before the new mode is applied
-  let (c, t) := if isPresencer (oldWant &&& oldGiven) ∧ !isPresencer (eff ud) then c.presUsersOfInterest t "off" "dis" else (c, t)
-  let t := t.setPud a.uid ud
+  let (c, t) := c.meModeChanged t a ud oldWant oldGiven
   let changed := oldWant ≠ ud.want ∨ oldGiven ≠ ud.given
-  let (c, t) := if changed then
-      -- notifySubChange on `me`: visible again → "on+en"; the user's other sessions attached to `me` see the new mode
-      let (c, t) := if hearsPres (eff ud) ∧ !hearsPres (oldWant &&& oldGiven) then c.presUsersOfInterest t "on" "en" else (c, t)
-      let dWant := String.ofList (notifyStr oldWant ud.want)
-      let dGiven := String.ofList (notifyStr oldGiven ud.given)
-      let acs := if dWant ≠ "" ∨ dGiven ≠ "" then s!" dacs={if dWant.isEmpty then "_" else dWant}/{if dGiven.isEmpty then "_" else dGiven}" else ""
-      (c.presDirect t { what := "acs", src := "", extra := acs, singleUser := a.uid, skipSid := a.sid }, t)
-    else (c, t)
   let mc := if changed then some (ud.want, ud.given) else none
   if !isJoiner ud.want then
     let (c, t) := c.evictMe t a.uid ""
